@@ -27,7 +27,7 @@ def gen_dataset(rnd, buf):
     nid = 3
     base = [None, None]
     for t in range(rnd.choice([3, 4, 6])):
-        kind = rnd.choice(["in", "in", "in", "dangling", "out", "twin"])
+        kind = rnd.choice(["in", "in", "in", "dangling", "out", "twin", "spanning"])
         n = rnd.choice([1, 2, 3, 4])
         tr = S.gen_trace(rnd, job=1 + t, name=1 + rnd.randrange(2), first_id=nid, n=n, dangling=(kind == "dangling"))
         for e in tr:
@@ -37,6 +37,14 @@ def gen_dataset(rnd, buf):
             else:
                 e["st"] = t0 + buf * MIN + rnd.randrange(0, extent - 2 * buf * MIN)
                 e["en"] = min(t0 + extent - buf * MIN, e["st"] + rnd.randrange(0, MIN))
+        if kind == "spanning" and buf > 0 and len(tr) >= 1:
+            # a long-running job: the root spans the whole retained window, no span starts or ends inside it
+            for k, e in enumerate(tr):
+                if k == 0:
+                    e["st"], e["en"] = t0 + rnd.randrange(1, buf * MIN // 2), t0 + extent - rnd.randrange(1, buf * MIN // 2)
+                else:
+                    e["st"] = t0 + rnd.randrange(1, buf * MIN // 2) if k % 2 else t0 + extent - rnd.randrange(2, buf * MIN // 2)
+                    e["en"] = e["st"] + 1
         if kind == "twin" and base[0]:
             # same shape as an earlier trace (so that -ug has something to merge)
             src = base[0]
@@ -57,7 +65,7 @@ def gen_cases(out, explore):
     cases = []
     n = explore or (28 if quick else 400)
     for k in range(n):
-        buf = rnd.choice([0, 0, 1])
+        buf = rnd.choice([0, 1, 1])
         evs = gen_dataset(rnd, buf)
         L = rnd.choice([2, 3, 4])
         first = (True, rnd.random() < 0.5, True)
